@@ -30,7 +30,7 @@ AuthEq(a, b) == Len(a) = Len(b) /\ \A i \in DOMAIN a : a[i].scheme = b[i].scheme
 
 CheckRun(ev) ==
     LET hd  == [alts |-> ev.handler.alts, params |-> ev.handler.params, returnsValue |-> ev.handler.returnsValue]
-        exp == RunOf(hd, [toks |-> ev.toks], ev.script, ev.fail, ev.sameErr)
+        exp == RunOf(hd, [toks |-> ev.toks], ev.script, [fail |-> ev.fail, sameErr |-> ev.sameErr, status |-> ev.setStatus])
         o   == ev.obs
     IN  IF ev.probe
         THEN Viol("C02", ~o.invoked, "a request to a verb/path nobody annotated reached a controller")
